@@ -1,3 +1,921 @@
-//! C10 — bounded checks (to be written)
-use crate::ctx::Ctx;
-pub fn run(_ctx: &mut Ctx) {}
+//! C10 — the lax and the strict representation agree and convert losslessly.
+//!
+//! Oracles (all from the statement, plain loops / model.rs reference operations):
+//!  * meaning of a lax diagram = its plain model quotiented by the smallest equivalence containing
+//!    the pending unification pairs (`model::quotient`, naive closure);
+//!  * round trips are compared for EQUALITY on every raw field; "commutes with the operations" is
+//!    compared up to a witness-producing isomorphism (`model::iso`), three ways: strict(lax op) vs
+//!    strict op on strictified operands vs the reference operation on the meanings;
+//!  * definedness: lax compose is Some iff the boundary TYPES are equal, lax_compose iff the
+//!    boundary ARITIES are equal, the strict composite of the strictified operands iff the types are;
+//!  * in-place tensor / append / coproduct: EQUAL data to the pure operation and to the literal
+//!    juxtaposition.
+use crate::ctx::{guard, Ctx, Rng};
+use crate::model::*;
+use open_hypergraphs::array::vec::*;
+use open_hypergraphs::category::*;
+use open_hypergraphs::finite_function::FiniteFunction;
+use open_hypergraphs::lax;
+use open_hypergraphs::semifinite::SemifiniteFunction;
+use serde_json::{json, Value};
+
+type Check = fn(&mut Ctx, &Value);
+const CHECKS: &[(&str, Check)] = &[
+    ("strict_roundtrip", chk_strict_roundtrip),
+    ("lax_roundtrip", chk_lax_roundtrip),
+    ("strictify", chk_strictify),
+    ("compose", chk_compose),
+    ("tensor", chk_tensor),
+    ("identity", chk_identity),
+    ("twist", chk_twist),
+    ("spider", chk_spider),
+    ("dagger", chk_dagger),
+    ("singleton", chk_singleton),
+    ("assign", chk_assign),
+];
+
+// ------------------------------------------------------------------------------------------------
+// plain lax model
+// ------------------------------------------------------------------------------------------------
+#[derive(Clone, Debug, PartialEq)]
+struct Lx {
+    m: M,
+    q: Vec<(usize, usize)>,
+}
+
+impl Lx {
+    fn json(&self) -> Value {
+        let mut v = self.m.json();
+        v["q"] = json!(self.q.iter().map(|&(a, b)| vec![a, b]).collect::<Vec<_>>());
+        v
+    }
+    fn from_json(v: &Value) -> Option<Lx> {
+        let m = M::from_json(v)?;
+        let mut q = vec![];
+        if let Some(arr) = v.get("q").and_then(|x| x.as_array()) {
+            for p in arr {
+                let p = p.as_array()?;
+                if p.len() != 2 {
+                    return None;
+                }
+                q.push((p[0].as_u64()? as usize, p[1].as_u64()? as usize));
+            }
+        }
+        Some(Lx { m, q })
+    }
+    fn valid(&self) -> bool {
+        let n = self.m.w.len();
+        self.m.valid() && self.q.iter().all(|&(a, b)| a < n && b < n)
+    }
+    /// the strict diagram this lax diagram denotes; None if a unification joins two labels
+    fn meaning(&self) -> Option<M> {
+        quotient(&self.m, &self.q).map(|(m, _)| m)
+    }
+    fn to_lax(&self) -> LOH {
+        let mut l = self.m.to_lax();
+        for &(a, b) in &self.q {
+            l.hypergraph.quotient.0.push(lax::NodeId(a));
+            l.hypergraph.quotient.1.push(lax::NodeId(b));
+        }
+        l
+    }
+    fn read(l: &LOH) -> Result<Lx, String> {
+        let h = &l.hypergraph;
+        if h.adjacency.len() != h.edges.len() {
+            return Err(format!("{} adjacency entries for {} edge labels", h.adjacency.len(), h.edges.len()));
+        }
+        if h.quotient.0.len() != h.quotient.1.len() {
+            return Err(format!("quotient lists of different length {} / {}", h.quotient.0.len(), h.quotient.1.len()));
+        }
+        let n = h.nodes.len();
+        let (m, q) = M::from_lax(l);
+        if !m.valid() || q.iter().any(|&(a, b)| a >= n || b >= n) {
+            return Err("node id out of range".into());
+        }
+        Ok(Lx { m, q })
+    }
+    /// meaning of a lax diagram produced by the library
+    fn read_meaning(l: &LOH) -> Result<M, String> {
+        Lx::read(l)?.meaning().ok_or_else(|| "pending unifications join different labels".to_string())
+    }
+}
+
+fn juxt(f: &Lx, g: &Lx) -> Lx {
+    let n = f.m.w.len();
+    let mut r = f.clone();
+    for &l in &g.m.w {
+        r.m.w.push(l);
+    }
+    for e in 0..g.m.x.len() {
+        r.m.x.push(g.m.x[e]);
+        r.m.src.push(g.m.src[e].iter().map(|&v| v + n).collect());
+        r.m.tgt.push(g.m.tgt[e].iter().map(|&v| v + n).collect());
+    }
+    for &v in &g.m.s {
+        r.m.s.push(v + n);
+    }
+    for &v in &g.m.t {
+        r.m.t.push(v + n);
+    }
+    for &(a, b) in &g.q {
+        r.q.push((a + n, b + n));
+    }
+    r
+}
+
+fn raw_ic(c: &IC) -> Value {
+    json!({"sizes": c.sources.table.0, "sizes_target": c.sources.target, "values": c.values.table.0, "values_target": c.values.target})
+}
+fn raw_h(h: &SH) -> Value {
+    json!({"h_s": raw_ic(&h.s), "h_t": raw_ic(&h.t), "w": h.w.0 .0, "x": h.x.0 .0})
+}
+fn raw(f: &SOH) -> Value {
+    json!({"s": f.s.table.0, "s_target": f.s.target, "t": f.t.table.0, "t_target": f.t.target, "h": raw_h(&f.h)})
+}
+
+fn sf(v: &[u8]) -> SF<u8> {
+    SemifiniteFunction(VecArray(v.to_vec()))
+}
+
+/// strictify a library-made lax diagram: the call must return and the result must be well formed
+fn strictify(ctx: &mut Ctx, check: &str, input: &Value, what: &str, l: &LOH) -> Option<M> {
+    let l2 = l.clone();
+    match guard(move || l2.to_strict()) {
+        Err(p) => {
+            ctx.fail(check, "C10.to-strict-no-panic", input, json!(format!("{}: panic: {}", what, p)), json!("a strict diagram"));
+            None
+        }
+        Ok(s) => match strict_wf(&s) {
+            Err(why) => {
+                ctx.fail(check, "C10.to-strict-wf", input, json!(format!("{}: {}", what, why)), json!("well-formed"));
+                None
+            }
+            Ok(m) => Some(m),
+        },
+    }
+}
+
+fn wf(ctx: &mut Ctx, check: &str, input: &Value, what: &str, s: &SOH) -> Option<M> {
+    match strict_wf(s) {
+        Err(why) => {
+            ctx.fail(check, "C10.strict-wf", input, json!(format!("{}: {}", what, why)), json!("well-formed"));
+            None
+        }
+        Ok(m) => Some(m),
+    }
+}
+
+fn one(input: &Value) -> Option<Lx> {
+    match Lx::from_json(&input["f"]) {
+        Some(f) if f.valid() => Some(f),
+        _ => None,
+    }
+}
+fn two(input: &Value) -> Option<(Lx, Lx)> {
+    match (Lx::from_json(&input["f"]), Lx::from_json(&input["g"])) {
+        (Some(f), Some(g)) if f.valid() && g.valid() => Some((f, g)),
+        _ => None,
+    }
+}
+fn u8s(v: &Value) -> Option<Vec<u8>> {
+    v.as_array()?.iter().map(|x| x.as_u64().map(|y| y as u8)).collect()
+}
+
+// ------------------------------------------------------------------------------------------------
+// round trips
+// ------------------------------------------------------------------------------------------------
+/// input: {"f": model} — strict -> lax -> strict is the identity on raw data
+fn chk_strict_roundtrip(ctx: &mut Ctx, input: &Value) {
+    let f = match one(input) {
+        Some(f) => f.m,
+        None => return,
+    };
+    const C: &str = "strict_roundtrip";
+    ctx.case(C, input, f.nontrivial());
+    let s = f.to_strict();
+    let want = raw(&s);
+    let s2 = s.clone();
+    let l = match guard(move || LOH::from_strict(s2)) {
+        Err(p) => return ctx.fail(C, "C10.from-strict-no-panic", input, json!(format!("panic: {}", p)), f.json()),
+        Ok(l) => l,
+    };
+    match Lx::read_meaning(&l) {
+        Err(why) => ctx.fail(C, "C10.from-strict-agrees", input, json!(why), f.json()),
+        Ok(m) => {
+            ctx.expect(is_iso(&m, &f), C, "C10.from-strict-agrees", input, m.json(), f.json());
+        }
+    }
+    let l2 = l.clone();
+    match guard(move || l2.to_strict()) {
+        Err(p) => ctx.fail(C, "C10.to-strict-no-panic", input, json!(format!("panic: {}", p)), want.clone()),
+        Ok(back) => {
+            let r = raw(&back);
+            ctx.expect(r == want, C, "C10.strict-lax-strict-unchanged", input, r, want.clone());
+        }
+    }
+    // the same one level down: hypergraph without interfaces
+    let h = s.h.clone();
+    match guard(move || lax::Hypergraph::from_strict(h).to_hypergraph()) {
+        Err(p) => ctx.fail(C, "C10.from-strict-no-panic", input, json!(format!("hypergraph: panic: {}", p)), raw_h(&s.h)),
+        Ok(back) => {
+            let (r, w) = (raw_h(&back), raw_h(&s.h));
+            ctx.expect(r == w, C, "C10.hypergraph-strict-lax-strict-unchanged", input, r, w);
+        }
+    }
+}
+
+/// input: {"f": model} (a lax diagram WITHOUT pending unifications) — lax -> strict -> lax is the identity
+fn chk_lax_roundtrip(ctx: &mut Ctx, input: &Value) {
+    let f = match one(input) {
+        Some(f) => Lx { m: f.m, q: vec![] },
+        None => return,
+    };
+    const C: &str = "lax_roundtrip";
+    ctx.case(C, input, f.m.nontrivial());
+    let l = f.to_lax();
+    ctx.expect(guard(|| l.hypergraph.is_strict()) == Ok(true), C, "C10.is-strict", input, json!("is_strict() != true"), json!(true));
+    let l2 = l.clone();
+    let s = match guard(move || l2.to_strict()) {
+        Err(p) => return ctx.fail(C, "C10.to-strict-no-panic", input, json!(format!("panic: {}", p)), f.json()),
+        Ok(s) => s,
+    };
+    match strict_wf(&s) {
+        Err(why) => ctx.fail(C, "C10.to-strict-wf", input, json!(why), f.json()),
+        Ok(m) => {
+            ctx.expect(is_iso(&m, &f.m), C, "C10.strictify-agrees", input, m.json(), f.m.json());
+        }
+    }
+    match guard(move || LOH::from_strict(s)) {
+        Err(p) => ctx.fail(C, "C10.from-strict-no-panic", input, json!(format!("panic: {}", p)), f.json()),
+        Ok(back) => {
+            let same = back == l && Lx::read(&back).as_ref() == Ok(&f);
+            ctx.expect(same, C, "C10.lax-strict-lax-unchanged", input, json!(format!("{:?}", back)), f.json());
+        }
+    }
+    // hypergraph level
+    let h = l.hypergraph.clone();
+    match guard(move || lax::Hypergraph::from_strict(h.to_hypergraph())) {
+        Err(p) => ctx.fail(C, "C10.from-strict-no-panic", input, json!(format!("hypergraph: panic: {}", p)), f.json()),
+        Ok(back) => {
+            ctx.expect(back == l.hypergraph, C, "C10.hypergraph-lax-strict-lax-unchanged", input, json!(format!("{:?}", back)), f.json());
+        }
+    }
+}
+
+/// input: {"f": lax model with label-consistent pending pairs} — strictification = quotient
+fn chk_strictify(ctx: &mut Ctx, input: &Value) {
+    let f = match one(input) {
+        Some(f) => f,
+        None => return,
+    };
+    let want = match f.meaning() {
+        Some(m) => m,
+        None => return,
+    };
+    const C: &str = "strictify";
+    ctx.case(C, input, f.m.nontrivial() && want.w.len() < f.m.w.len());
+    let l = f.to_lax();
+    ctx.expect(guard(|| l.hypergraph.is_strict()) == Ok(f.q.is_empty()), C, "C10.is-strict", input, json!("is_strict() wrong"), json!(f.q.is_empty()));
+    if let Some(m) = strictify(ctx, C, input, "to_strict", &l) {
+        ctx.expect(is_iso(&m, &want), C, "C10.strictify-quotient", input, m.json(), want.json());
+    }
+    // in-place quotient first, then the (now unification-free) diagram: same meaning
+    let mut l2 = l.clone();
+    match guard(move || {
+        let r = l2.quotient().is_ok();
+        (r, l2)
+    }) {
+        Err(p) => ctx.fail(C, "C10.quotient-no-panic", input, json!(format!("panic: {}", p)), want.json()),
+        Ok((ok, l2)) => {
+            ctx.expect(ok, C, "C10.quotient-ok", input, json!("Err"), json!("Ok (labels are consistent)"));
+            if ok {
+                match Lx::read(&l2) {
+                    Err(why) => ctx.fail(C, "C10.quotient-agrees", input, json!(why), want.json()),
+                    Ok(r) => {
+                        ctx.expect(r.q.is_empty() && is_iso(&r.m, &want), C, "C10.quotient-agrees", input, r.json(), want.json());
+                    }
+                }
+                if let Some(m) = strictify(ctx, C, input, "quotient then to_strict", &l2) {
+                    ctx.expect(is_iso(&m, &want), C, "C10.quotient-then-strictify", input, m.json(), want.json());
+                }
+            }
+        }
+    }
+}
+
+// ------------------------------------------------------------------------------------------------
+// strictification commutes with the operations
+// ------------------------------------------------------------------------------------------------
+/// input: {"f": lax model, "g": lax model}
+fn chk_compose(ctx: &mut Ctx, input: &Value) {
+    let (f, g) = match two(input) {
+        Some(x) => x,
+        None => return,
+    };
+    let (mf, mg) = match (f.meaning(), g.meaning()) {
+        (Some(a), Some(b)) => (a, b),
+        _ => return,
+    };
+    const C: &str = "compose";
+    let types_match = f.m.target_type() == g.m.source_type();
+    let arity_match = f.m.t.len() == g.m.s.len();
+    ctx.case(C, input, f.m.nontrivial() && g.m.nontrivial() && arity_match && !f.m.t.is_empty());
+    let (lf, lg) = (f.to_lax(), g.to_lax());
+    let oracle = compose(&mf, &mg);
+    if oracle.is_some() != types_match {
+        // cannot happen for label-consistent inputs; do not judge the library on an inconsistent oracle
+        return;
+    }
+    let say = |o: &Option<LOH>| if o.is_some() { "Some" } else { "None" };
+    // definedness
+    let checked = [("compose", guard(|| Arrow::compose(&lf, &lg))), ("shr", guard(|| &lf >> &lg))];
+    let unchecked = guard(|| lf.lax_compose(&lg));
+    let mut results: Vec<(&str, LOH)> = vec![];
+    for (how, r) in checked {
+        match r {
+            Err(p) => ctx.fail(C, "C10.compose-no-panic", input, json!(format!("{}: panic: {}", how, p)), json!(types_match)),
+            Ok(o) => {
+                ctx.expect(o.is_some() == types_match, C, "C10.compose-defined-iff-types-match", input, json!(format!("{}: {}", how, say(&o))), json!(types_match));
+                if let Some(r) = o {
+                    results.push((how, r));
+                }
+            }
+        }
+    }
+    match unchecked {
+        Err(p) => ctx.fail(C, "C10.compose-no-panic", input, json!(format!("lax_compose: panic: {}", p)), json!(arity_match)),
+        Ok(o) => {
+            ctx.expect(o.is_some() == arity_match, C, "C10.lax-compose-defined-iff-arities-match", input, json!(say(&o)), json!(arity_match));
+            if let Some(r) = o {
+                if types_match {
+                    results.push(("lax_compose", r));
+                } else {
+                    // unchecked composite of mismatching types: still a readable lax diagram with the outer interfaces
+                    match Lx::read(&r) {
+                        Err(why) => ctx.fail(C, "C10.lax-compose-readable", input, json!(why), json!("valid node ids")),
+                        Ok(x) => {
+                            let ok = x.m.s.len() == f.m.s.len() && x.m.t.len() == g.m.t.len();
+                            ctx.expect(ok, C, "C10.lax-compose-arity", input, json!([x.m.s.len(), x.m.t.len()]), json!([f.m.s.len(), g.m.t.len()]));
+                        }
+                    }
+                }
+            }
+        }
+    }
+    // strict side
+    let (sf_, sg_) = match (guard(|| lf.clone().to_strict()), guard(|| lg.clone().to_strict())) {
+        (Ok(a), Ok(b)) => (a, b),
+        (a, b) => return ctx.fail(C, "C10.to-strict-no-panic", input, json!(format!("operands: {:?} {:?}", a.err(), b.err())), json!("strict operands")),
+    };
+    let strict_side = match guard(|| Arrow::compose(&sf_, &sg_)) {
+        Err(p) => return ctx.fail(C, "C10.compose-no-panic", input, json!(format!("strict compose: panic: {}", p)), json!(types_match)),
+        Ok(o) => o,
+    };
+    ctx.expect(strict_side.is_some() == types_match, C, "C10.strict-compose-defined-agrees", input, json!(strict_side.is_some()), json!(types_match));
+    let (oracle, strict_side) = match (oracle, strict_side) {
+        (Some(o), Some(s)) => (o, s),
+        _ => return,
+    };
+    let ms = match wf(ctx, C, input, "strict composite", &strict_side) {
+        Some(m) => m,
+        None => return,
+    };
+    ctx.expect(is_iso(&ms, &oracle), C, "C10.strict-compose-oracle", input, ms.json(), oracle.json());
+    for (how, r) in &results {
+        if let Some(m) = strictify(ctx, C, input, how, r) {
+            ctx.expect(is_iso(&m, &ms), C, "C10.compose-commutes", input, json!({"how": how, "strict(f;g)": m.json()}), ms.json());
+            ctx.expect(is_iso(&m, &oracle), C, "C10.compose-oracle", input, json!({"how": how, "strict(f;g)": m.json()}), oracle.json());
+        }
+    }
+}
+
+/// input: {"f": lax model, "g": lax model}
+fn chk_tensor(ctx: &mut Ctx, input: &Value) {
+    let (f, g) = match two(input) {
+        Some(x) => x,
+        None => return,
+    };
+    let (mf, mg) = match (f.meaning(), g.meaning()) {
+        (Some(a), Some(b)) => (a, b),
+        _ => return,
+    };
+    const C: &str = "tensor";
+    ctx.case(C, input, f.m.nontrivial() && g.m.nontrivial());
+    let (lf, lg) = (f.to_lax(), g.to_lax());
+    let oracle = tensor(&mf, &mg);
+    let l = match guard(|| lf.tensor(&lg)) {
+        Err(p) => return ctx.fail(C, "C10.tensor-no-panic", input, json!(format!("panic: {}", p)), oracle.json()),
+        Ok(l) => l,
+    };
+    let r = match guard(|| Monoidal::tensor(&lf.clone().to_strict(), &lg.clone().to_strict())) {
+        Err(p) => return ctx.fail(C, "C10.tensor-no-panic", input, json!(format!("strict side: panic: {}", p)), oracle.json()),
+        Ok(r) => r,
+    };
+    let mr = match wf(ctx, C, input, "strict tensor", &r) {
+        Some(m) => m,
+        None => return,
+    };
+    if let Some(ml) = strictify(ctx, C, input, "tensor", &l) {
+        ctx.expect(is_iso(&ml, &mr), C, "C10.tensor-commutes", input, ml.json(), mr.json());
+        ctx.expect(is_iso(&ml, &oracle), C, "C10.tensor-oracle", input, ml.json(), oracle.json());
+    }
+}
+
+/// compare strict(lax constructor) / strict constructor / reference model
+fn three_way(ctx: &mut Ctx, check: &str, clause: &str, input: &Value, l: Result<LOH, String>, s: Result<SOH, String>, oracle: &M) {
+    let l = match l {
+        Err(p) => return ctx.fail(check, "C10.constructor-no-panic", input, json!(format!("lax: panic: {}", p)), oracle.json()),
+        Ok(l) => l,
+    };
+    let s = match s {
+        Err(p) => return ctx.fail(check, "C10.constructor-no-panic", input, json!(format!("strict: panic: {}", p)), oracle.json()),
+        Ok(s) => s,
+    };
+    let ms = match wf(ctx, check, input, "strict constructor", &s) {
+        Some(m) => m,
+        None => return,
+    };
+    ctx.expect(is_iso(&ms, oracle), check, &format!("{}-strict-oracle", clause), input, ms.json(), oracle.json());
+    if let Some(ml) = strictify(ctx, check, input, "lax constructor", &l) {
+        ctx.expect(is_iso(&ml, &ms), check, &format!("{}-commutes", clause), input, ml.json(), ms.json());
+        ctx.expect(is_iso(&ml, oracle), check, &format!("{}-oracle", clause), input, ml.json(), oracle.json());
+    }
+}
+
+/// input: {"w": [labels]}
+fn chk_identity(ctx: &mut Ctx, input: &Value) {
+    let w = match u8s(&input["w"]) {
+        Some(w) => w,
+        None => return,
+    };
+    ctx.case("identity", input, !w.is_empty());
+    let oracle = identity(&w);
+    three_way(ctx, "identity", "C10.identity", input, guard(|| LOH::identity(w.clone())), guard(|| <SOH as Arrow>::identity(sf(&w))), &oracle);
+    three_way(ctx, "identity", "C10.identity", input, guard(|| <LOH as Arrow>::identity(w.clone())), guard(|| SOH::identity(sf(&w))), &oracle);
+}
+
+/// input: {"a": [labels], "b": [labels]}
+fn chk_twist(ctx: &mut Ctx, input: &Value) {
+    let (a, b) = match (u8s(&input["a"]), u8s(&input["b"])) {
+        (Some(a), Some(b)) => (a, b),
+        _ => return,
+    };
+    ctx.case("twist", input, !a.is_empty() && !b.is_empty());
+    let oracle = twist(&a, &b);
+    three_way(ctx, "twist", "C10.twist", input, guard(|| <LOH as SymmetricMonoidal>::twist(a.clone(), b.clone())), guard(|| <SOH as SymmetricMonoidal>::twist(sf(&a), sf(&b))), &oracle);
+}
+
+/// input: {"s": {"table","target"}, "t": {"table","target"}, "w": [labels]}
+fn chk_spider(ctx: &mut Ctx, input: &Value) {
+    let rd = |v: &Value| -> Option<(Vec<usize>, usize)> {
+        let table: Vec<usize> = v.get("table")?.as_array()?.iter().map(|x| x.as_u64().map(|y| y as usize)).collect::<Option<_>>()?;
+        let target = v.get("target")?.as_u64()? as usize;
+        if table.iter().any(|&x| x >= target) {
+            return None;
+        }
+        Some((table, target))
+    };
+    let ((st, sn), (tt, tn), w) = match (rd(&input["s"]), rd(&input["t"]), u8s(&input["w"])) {
+        (Some(s), Some(t), Some(w)) => (s, t, w),
+        _ => return,
+    };
+    const C: &str = "spider";
+    let defined = sn == w.len() && tn == w.len();
+    ctx.case(C, input, !w.is_empty() && st.len() + tt.len() > 0);
+    let mk = |t: &Vec<usize>, n: usize| -> FF { FiniteFunction::new(VecArray(t.clone()), n).unwrap() };
+    let l = guard(|| LOH::spider(mk(&st, sn), mk(&tt, tn), w.clone()));
+    let l2 = guard(|| <LOH as Spider<VecKind>>::spider(mk(&st, sn), mk(&tt, tn), w.clone()));
+    let s = guard(|| SOH::spider(mk(&st, sn), mk(&tt, tn), sf(&w)));
+    let (l, l2, s) = match (l, l2, s) {
+        (Ok(a), Ok(b), Ok(c)) => (a, b, c),
+        (a, b, c) => return ctx.fail(C, "C10.constructor-no-panic", input, json!(format!("panic: {:?} {:?} {:?}", a.err(), b.err(), c.err().map(|e| e))), json!(defined)),
+    };
+    ctx.expect(l.is_some() == defined && l2.is_some() == defined, C, "C10.spider-lax-defined", input, json!([l.is_some(), l2.is_some()]), json!(defined));
+    ctx.expect(s.is_some() == defined, C, "C10.spider-strict-defined", input, json!(s.is_some()), json!(defined));
+    if !defined {
+        return;
+    }
+    let oracle = match spider(&st, &tt, &w) {
+        Some(o) => o,
+        None => return,
+    };
+    if let (Some(l), Some(l2), Some(s)) = (l, l2, s) {
+        three_way(ctx, C, "C10.spider", input, Ok(l), Ok(s.clone()), &oracle);
+        three_way(ctx, C, "C10.spider", input, Ok(l2), Ok(s), &oracle);
+    }
+    // half spider (target leg = identity), when the shapes allow it
+    if tt == (0..w.len()).collect::<Vec<_>>() {
+        let lh = guard(|| <LOH as Spider<VecKind>>::half_spider(mk(&st, sn), w.clone()));
+        let sh = guard(|| <SOH as Spider<VecKind>>::half_spider(mk(&st, sn), sf(&w)));
+        if let (Ok(Some(lh)), Ok(Some(sh))) = (lh, sh) {
+            three_way(ctx, C, "C10.half-spider", input, Ok(lh), Ok(sh), &oracle);
+        } else {
+            ctx.fail(C, "C10.half-spider-defined", input, json!("None or panic"), oracle.json());
+        }
+    }
+}
+
+/// input: {"f": lax model}
+fn chk_dagger(ctx: &mut Ctx, input: &Value) {
+    let f = match one(input) {
+        Some(f) => f,
+        None => return,
+    };
+    let mf = match f.meaning() {
+        Some(m) => m,
+        None => return,
+    };
+    ctx.case("dagger", input, f.m.nontrivial() && f.m.s != f.m.t);
+    let lf = f.to_lax();
+    let oracle = dagger(&mf);
+    let l = guard(|| <LOH as Spider<VecKind>>::dagger(&lf));
+    let s = guard(|| <SOH as Spider<VecKind>>::dagger(&lf.clone().to_strict()));
+    three_way(ctx, "dagger", "C10.dagger", input, l, s, &oracle);
+}
+
+/// input: {"x": label, "a": [labels], "b": [labels]}
+fn chk_singleton(ctx: &mut Ctx, input: &Value) {
+    let (x, a, b) = match (input["x"].as_u64(), u8s(&input["a"]), u8s(&input["b"])) {
+        (Some(x), Some(a), Some(b)) => (x as u8, a, b),
+        _ => return,
+    };
+    ctx.case("singleton", input, a.len() + b.len() > 0);
+    let oracle = singleton(x, &a, &b);
+    three_way(ctx, "singleton", "C10.singleton", input, guard(|| LOH::singleton(x, a.clone(), b.clone())), guard(|| SOH::singleton(x, sf(&a), sf(&b))), &oracle);
+}
+
+// ------------------------------------------------------------------------------------------------
+// in-place operations = pure operations
+// ------------------------------------------------------------------------------------------------
+/// input: {"f": lax model, "g": lax model}
+fn chk_assign(ctx: &mut Ctx, input: &Value) {
+    let (f, g) = match two(input) {
+        Some(x) => x,
+        None => return,
+    };
+    const C: &str = "assign";
+    let mentions = g.m.s.len() + g.m.t.len() + g.q.len() + g.m.src.iter().chain(g.m.tgt.iter()).map(|l| l.len()).sum::<usize>();
+    ctx.case(C, input, !f.m.w.is_empty() && mentions > 0);
+    let (lf, lg) = (f.to_lax(), g.to_lax());
+    let e = juxt(&f, &g);
+    let n = f.m.w.len();
+    let pure = guard(|| lf.tensor(&lg));
+    let pure_h = guard(|| open_hypergraphs::verif_hooks::lax_hypergraph_coproduct(&lf.hypergraph, &lg.hypergraph));
+    // tensor_assign
+    match guard(|| {
+        let mut a = lf.clone();
+        a.tensor_assign(lg.clone());
+        a
+    }) {
+        Err(p) => ctx.fail(C, "C10.assign-no-panic", input, json!(format!("tensor_assign: panic: {}", p)), e.json()),
+        Ok(a) => {
+            if let Ok(p) = &pure {
+                ctx.expect(&a == p, C, "C10.tensor-assign-equals-tensor", input, json!(format!("{:?}", a)), json!(format!("{:?}", p)));
+            }
+            ctx.expect(Lx::read(&a).as_ref() == Ok(&e), C, "C10.tensor-assign-juxtaposition", input, json!(format!("{:?}", a)), e.json());
+        }
+    }
+    // append: hypergraph as for the tensor, own interfaces untouched, rhs interfaces returned shifted
+    match guard(|| {
+        let mut a = lf.clone();
+        let r = a.append(lg.clone());
+        (a, r)
+    }) {
+        Err(p) => ctx.fail(C, "C10.assign-no-panic", input, json!(format!("append: panic: {}", p)), e.json()),
+        Ok((a, (rs, rt))) => {
+            let mut e2 = e.clone();
+            e2.m.s = f.m.s.clone();
+            e2.m.t = f.m.t.clone();
+            if let Ok(p) = &pure {
+                ctx.expect(a.hypergraph == p.hypergraph, C, "C10.append-equals-tensor-hypergraph", input, json!(format!("{:?}", a.hypergraph)), json!(format!("{:?}", p.hypergraph)));
+                let tail_s: Vec<usize> = p.sources.iter().skip(lf.sources.len()).map(|x| x.0).collect();
+                let tail_t: Vec<usize> = p.targets.iter().skip(lf.targets.len()).map(|x| x.0).collect();
+                let got: (Vec<usize>, Vec<usize>) = (rs.iter().map(|x| x.0).collect(), rt.iter().map(|x| x.0).collect());
+                ctx.expect(got == (tail_s.clone(), tail_t.clone()), C, "C10.append-returns-tensor-interfaces", input, json!(got), json!([tail_s, tail_t]));
+            }
+            ctx.expect(Lx::read(&a).as_ref() == Ok(&e2), C, "C10.append-juxtaposition", input, json!(format!("{:?}", a)), e2.json());
+            let want_s: Vec<usize> = g.m.s.iter().map(|&v| v + n).collect();
+            let want_t: Vec<usize> = g.m.t.iter().map(|&v| v + n).collect();
+            let got: (Vec<usize>, Vec<usize>) = (rs.iter().map(|x| x.0).collect(), rt.iter().map(|x| x.0).collect());
+            ctx.expect(got == (want_s.clone(), want_t.clone()), C, "C10.append-returned-interfaces", input, json!(got), json!([want_s, want_t]));
+        }
+    }
+    // coproduct_assign on the bare hypergraphs
+    match guard(|| {
+        let mut a = lf.hypergraph.clone();
+        a.coproduct_assign(lg.hypergraph.clone());
+        a
+    }) {
+        Err(p) => ctx.fail(C, "C10.assign-no-panic", input, json!(format!("coproduct_assign: panic: {}", p)), e.json()),
+        Ok(a) => {
+            if let Ok(p) = &pure_h {
+                ctx.expect(&a == p, C, "C10.coproduct-assign-equals-coproduct", input, json!(format!("{:?}", a)), json!(format!("{:?}", p)));
+            }
+            let mut e2 = e.clone();
+            e2.m.s = vec![];
+            e2.m.t = vec![];
+            let o = lax::OpenHypergraph { sources: vec![], targets: vec![], hypergraph: a };
+            ctx.expect(Lx::read(&o).as_ref() == Ok(&e2), C, "C10.coproduct-assign-juxtaposition", input, json!(format!("{:?}", o.hypergraph)), e2.json());
+        }
+    }
+    if let (Err(p), _) | (_, Err(p)) = (pure.as_ref().map(|_| ()), pure_h.as_ref().map(|_| ())) {
+        ctx.fail(C, "C10.assign-no-panic", input, json!(format!("pure tensor/coproduct: panic: {}", p)), e.json());
+    }
+}
+
+// ------------------------------------------------------------------------------------------------
+// generators
+// ------------------------------------------------------------------------------------------------
+const LARGE: Bounds = Bounds { nodes: 10, edges: 5, arity: 4, iface: 8, labels: 3 };
+
+/// label-consistent pending pairs: both ends carry the same label
+fn consistent_q(r: &mut Rng, w: &[u8], max_pairs: usize) -> Vec<(usize, usize)> {
+    let n = w.len();
+    if n == 0 || max_pairs == 0 {
+        return vec![];
+    }
+    let k = r.range(1, max_pairs);
+    (0..k)
+        .map(|_| {
+            let a = r.below(n);
+            let cands: Vec<usize> = (0..n).filter(|&i| w[i] == w[a]).collect();
+            (a, cands[r.below(cands.len())])
+        })
+        .collect()
+}
+
+fn random_lx(r: &mut Rng, b: Bounds) -> Lx {
+    let m = random_model(r, b);
+    let q = if r.chance(2, 5) { vec![] } else { consistent_q(r, &m.w, 4) };
+    Lx { m, q }
+}
+
+/// a right operand for `f`: same boundary type (composable), same arity but another type, or arbitrary
+fn random_partner(r: &mut Rng, b: Bounds, f: &Lx) -> Lx {
+    let ty = f.m.target_type();
+    let m = match r.below(6) {
+        0 => random_model(r, b),
+        1 if !ty.is_empty() => {
+            // same arity, exactly one label differs
+            let mut ty2 = ty.clone();
+            let i = r.below(ty2.len());
+            ty2[i] = if ty2[i] == 0 { 1 } else { 0 };
+            random_model_with_source(r, b, &ty2)
+        }
+        2 if !ty.is_empty() => {
+            // arity differs by one, common prefix
+            let mut ty2 = ty.clone();
+            if r.chance(1, 2) {
+                ty2.pop();
+            } else {
+                ty2.push(ty[0]);
+            }
+            random_model_with_source(r, b, &ty2)
+        }
+        _ => random_model_with_source(r, b, &ty),
+    };
+    let q = if r.chance(2, 5) { vec![] } else { consistent_q(r, &m.w, 4) };
+    Lx { m, q }
+}
+
+fn mk(w: Vec<u8>, x: Vec<u8>, src: Vec<Vec<usize>>, tgt: Vec<Vec<usize>>, s: Vec<usize>, t: Vec<usize>, q: Vec<(usize, usize)>) -> Lx {
+    Lx { m: M { w, x, src, tgt, s, t }, q }
+}
+
+fn corner_lx() -> Vec<Lx> {
+    let mut out: Vec<Lx> = corner_models().iter().map(|m| Lx { m: m.clone(), q: vec![] }).collect();
+    // no nodes, two zero-arity edges
+    out.push(mk(vec![], vec![10, 11], vec![vec![], vec![]], vec![vec![], vec![]], vec![], vec![], vec![]));
+    // trailing isolated nodes, trailing zero-arity edge (conversions must not lose the tail)
+    out.push(mk(vec![0, 1, 1, 0], vec![10, 11], vec![vec![0], vec![]], vec![vec![1], vec![]], vec![0], vec![1], vec![]));
+    // pending: self pair, duplicate pair, reversed pair, chain collapsing everything
+    out.push(mk(vec![0, 0, 0], vec![], vec![], vec![], vec![0, 1, 2], vec![2, 1, 0], vec![(1, 1), (0, 2), (2, 0), (0, 2), (2, 1)]));
+    // pending pair merges the two ends of an edge into a self loop; interface hits the merged-away id
+    out.push(mk(vec![1, 1], vec![10], vec![vec![0]], vec![vec![1]], vec![1], vec![1, 0], vec![(1, 0)]));
+    // pending only between nodes that are on no interface and no edge
+    out.push(mk(vec![0, 1, 0, 1], vec![], vec![], vec![], vec![1], vec![1], vec![(0, 2)]));
+    // permutation wiring without operations, plus pending pair
+    out.push(mk(vec![0, 0, 1], vec![], vec![], vec![], vec![2, 0, 1], vec![1, 2, 0], vec![(0, 1)]));
+    // boundary multiplicity much larger than the node count
+    out.push(mk(vec![0], vec![], vec![], vec![], vec![0; 6], vec![0; 6], vec![]));
+    out.push(mk(vec![0, 0], vec![10], vec![vec![0, 1, 0, 1, 0]], vec![vec![1; 5]], vec![0, 1, 0, 1, 0, 1], vec![1, 0, 1, 0, 1, 0], vec![]));
+    // 2-cycle closed further by a pending pair
+    out.push(mk(vec![0, 0], vec![10, 11], vec![vec![0], vec![1]], vec![vec![1], vec![0]], vec![0], vec![1], vec![(1, 0)]));
+    out
+}
+
+/// 2^k nodes of one label merged in binomial-tree order; `flip` reverses every pair
+fn binomial_pairs(k: usize, flip: bool) -> Vec<(usize, usize)> {
+    let n = 1usize << k;
+    let mut q = vec![];
+    let mut step = 1;
+    while step < n {
+        let mut i = 0;
+        while i + step < n {
+            q.push(if flip { (i + step, i) } else { (i, i + step) });
+            i += 2 * step;
+        }
+        step *= 2;
+    }
+    q
+}
+
+/// exhaustive lax family: n ≤ 2 nodes of ONE label, ≤ 1 edge (arities ≤ 1), interfaces ≤ 1 (≤ 2 for n = 1), ≤ 1 pending pair
+fn exhaustive() -> Vec<Lx> {
+    let mut out = vec![];
+    for n in 0..=2usize {
+        let w: Vec<u8> = vec![0; n];
+        let mut lists: Vec<Vec<usize>> = vec![vec![]];
+        for v in 0..n {
+            lists.push(vec![v]);
+        }
+        let mut ifaces = lists.clone();
+        if n == 1 {
+            ifaces.push(vec![0, 0]);
+        }
+        let mut edges: Vec<Option<(Vec<usize>, Vec<usize>)>> = vec![None];
+        for a in &lists {
+            for b in &lists {
+                edges.push(Some((a.clone(), b.clone())));
+            }
+        }
+        let mut qs: Vec<Vec<(usize, usize)>> = vec![vec![]];
+        for a in 0..n {
+            for b in 0..n {
+                if a != b || a == 0 {
+                    qs.push(vec![(a, b)]);
+                }
+            }
+        }
+        for e in &edges {
+            for s in &ifaces {
+                for t in &ifaces {
+                    for q in &qs {
+                        let (x, src, tgt) = match e {
+                            None => (vec![], vec![], vec![]),
+                            Some((a, b)) => (vec![10], vec![a.clone()], vec![b.clone()]),
+                        };
+                        out.push(Lx { m: M { w: w.clone(), x, src, tgt, s: s.clone(), t: t.clone() }, q: q.clone() });
+                    }
+                }
+            }
+        }
+    }
+    out
+}
+
+fn labels(r: &mut Rng, max_len: usize) -> Vec<u8> {
+    let n = r.range(0, max_len);
+    (0..n).map(|_| r.below(3) as u8).collect()
+}
+
+fn single_checks(ctx: &mut Ctx, f: &Lx) {
+    chk_strict_roundtrip(ctx, &json!({"f": f.m.json()}));
+    chk_lax_roundtrip(ctx, &json!({"f": f.m.json()}));
+    chk_strictify(ctx, &json!({"f": f.json()}));
+    chk_dagger(ctx, &json!({"f": f.json()}));
+}
+fn pair_checks(ctx: &mut Ctx, f: &Lx, g: &Lx) {
+    let input = json!({"f": f.json(), "g": g.json()});
+    chk_compose(ctx, &input);
+    chk_tensor(ctx, &input);
+    chk_assign(ctx, &input);
+}
+
+pub fn run(ctx: &mut Ctx) {
+    if let Some((name, input)) = ctx.replay.clone() {
+        for (n, c) in CHECKS {
+            if *n == name {
+                c(ctx, &input);
+            }
+        }
+        return;
+    }
+    // (a) corners: every corner alone, all ordered pairs
+    let corners = corner_lx();
+    for f in &corners {
+        single_checks(ctx, f);
+        for g in &corners {
+            pair_checks(ctx, f, g);
+        }
+    }
+    // deep union-find trees: 32 + 32 nodes, each side merged in binomial-tree order by its own pending
+    // pairs (on the left, on the right, on both), the composition boundary joining the two halves
+    for (ql, qr) in [(true, false), (false, true), (true, true)] {
+        for flip in [false, true] {
+            let f = mk(vec![0; 32], vec![10], vec![vec![0]], vec![vec![31]], vec![5], (0..32).collect(), if ql { binomial_pairs(5, flip) } else { vec![] });
+            let g = mk(vec![0; 32], vec![11], vec![vec![31, 0]], vec![vec![]], (0..32).rev().collect(), vec![7, 7], if qr { binomial_pairs(5, !flip) } else { vec![] });
+            single_checks(ctx, &f);
+            single_checks(ctx, &g);
+            pair_checks(ctx, &f, &g);
+            pair_checks(ctx, &g, &f);
+        }
+    }
+    // two labels: two interleaved classes, 16 + 16 nodes each side
+    {
+        let w: Vec<u8> = (0..32).map(|i| (i % 2) as u8).collect();
+        let q: Vec<(usize, usize)> = binomial_pairs(4, false).into_iter().flat_map(|(a, b)| vec![(2 * a, 2 * b), (2 * b + 1, 2 * a + 1)]).collect();
+        let f = mk(w.clone(), vec![10], vec![vec![0, 1]], vec![vec![31, 30]], vec![0, 1], (0..32).collect(), q.clone());
+        let g = mk(w.clone(), vec![], vec![], vec![], (0..32).collect(), vec![1, 0], q);
+        single_checks(ctx, &f);
+        pair_checks(ctx, &f, &g);
+    }
+    // a chain of 40 pending pairs on a path, boundary multiplicity 12 on a single wire
+    {
+        let f = mk(vec![1; 41], vec![10, 10], vec![vec![0], vec![40]], vec![vec![40], vec![0]], vec![20], vec![3; 12], (0..40).map(|i| (i + 1, i)).collect());
+        let g = mk(vec![1, 1], vec![], vec![], vec![], vec![0, 1, 0, 1, 0, 1, 0, 1, 0, 1, 0, 1], vec![1, 0], vec![]);
+        single_checks(ctx, &f);
+        pair_checks(ctx, &f, &g);
+    }
+    // constructors: exhaustive small
+    for n in 0..=3usize {
+        // all label words over {0,1} of length n
+        for bits in 0..(1usize << n) {
+            let w: Vec<u8> = (0..n).map(|i| ((bits >> i) & 1) as u8).collect();
+            chk_identity(ctx, &json!({"w": w}));
+            for k in 0..=n {
+                chk_twist(ctx, &json!({"a": w[..k].to_vec(), "b": w[k..].to_vec()}));
+                chk_singleton(ctx, &json!({"x": 10, "a": w[..k].to_vec(), "b": w[k..].to_vec()}));
+            }
+        }
+    }
+    // spiders: all (s, t) with |w| ≤ 2, legs of length ≤ 2, every combination of leg targets in {|w|-1, |w|, |w|+1}
+    for n in 0..=2usize {
+        let w: Vec<u8> = (0..n as u8).collect();
+        let targets: Vec<usize> = (n.saturating_sub(1)..=n + 1).collect();
+        for &sn in &targets {
+            for &tn in &targets {
+                let tables = |m: usize| -> Vec<Vec<usize>> {
+                    let mut out = vec![vec![]];
+                    for a in 0..m {
+                        out.push(vec![a]);
+                        for b in 0..m {
+                            out.push(vec![a, b]);
+                        }
+                    }
+                    out
+                };
+                for st in tables(sn) {
+                    for tt in tables(tn) {
+                        chk_spider(ctx, &json!({"s": {"table": st, "target": sn}, "t": {"table": tt, "target": tn}, "w": w}));
+                    }
+                }
+            }
+        }
+    }
+    // (b) exhaustive small lax family: every member alone; ordered pairs: all (thorough) or a rotating 1/17 slice (quick)
+    let ex = exhaustive();
+    let stride = if ctx.thorough() { 1 } else { 17 };
+    for (i, f) in ex.iter().enumerate() {
+        single_checks(ctx, f);
+        let mut j = i % stride;
+        while j < ex.len() {
+            pair_checks(ctx, f, &ex[j]);
+            j += stride;
+        }
+    }
+    // (c) random
+    let n = ctx.budget(2500, 70000);
+    for i in 0..n {
+        let b = match i % 8 {
+            0 => LARGE,
+            1 | 2 | 3 => MEDIUM,
+            _ => SMALL,
+        };
+        let f = random_lx(&mut ctx.rng, b);
+        let g = random_partner(&mut ctx.rng, b, &f);
+        single_checks(ctx, &f);
+        pair_checks(ctx, &f, &g);
+        // constructors
+        let (a, c) = (labels(&mut ctx.rng, 4), labels(&mut ctx.rng, 4));
+        chk_identity(ctx, &json!({"w": a}));
+        chk_twist(ctx, &json!({"a": a, "b": c}));
+        let xl = 10 + ctx.rng.below(2);
+        chk_singleton(ctx, &json!({"x": xl, "a": a, "b": c}));
+        let w = labels(&mut ctx.rng, 5);
+        let tgt = |r: &mut Rng| if r.chance(1, 6) { (w.len() + r.below(3)).saturating_sub(1) } else { w.len() };
+        let (sn, tn) = (tgt(&mut ctx.rng), tgt(&mut ctx.rng));
+        let leg = |r: &mut Rng, m: usize, identity_ok: bool| -> Vec<usize> {
+            if m == 0 {
+                vec![]
+            } else if identity_ok && r.chance(1, 4) {
+                (0..m).collect()
+            } else {
+                let len = r.range(0, 7);
+                r.vec_below(len, m)
+            }
+        };
+        let st = leg(&mut ctx.rng, sn, false);
+        let tt = leg(&mut ctx.rng, tn, true);
+        chk_spider(ctx, &json!({"s": {"table": st, "target": sn}, "t": {"table": tt, "target": tn}, "w": w}));
+    }
+    ctx.notes.push(
+        "rule: lax inputs are plain models + an ordered list of pending unification pairs joining equally labelled nodes (label-consistent); strict inputs are the plain models. \
+         round trips compared for equality on every raw field; commutation compared up to isomorphism three ways (strict(lax op), strict op of strictified operands, reference operation on the quotiented models); definedness: compose Some iff boundary types equal, lax_compose Some iff boundary arities equal, strict composite likewise iff types equal; in-place tensor/append/coproduct equal to the pure result and to literal juxtaposition. \
+         enumeration: (a) 19 corners alone and all ordered pairs; 32+32-node operands with binomial-tree pending pairs on left/right/both (both pair orientations), two-label interleaved classes, a 40-pair chain with boundary multiplicity 12; constructors exhaustively for label words of length <=3 over {0,1} (identity, all splits for twist/singleton); spiders exhaustively for |w|<=2, legs <=2, leg targets in {|w|-1,|w|,|w|+1}; \
+         (b) exhaustive lax family (one label, n<=2 nodes, <=1 edge with arities <=1, interfaces <=1 resp. <=2 for n=1, <=1 pending pair; 452 members): each alone, ordered pairs all (thorough) / 1-in-17 (quick); \
+         (c) seeded random SMALL(3,2,2,3,2)/MEDIUM(5,3,3,4,2)/LARGE(10,5,4,8,3) with 0..4 consistent pending pairs on either operand; right operand: 1/2 composable by construction, 1/6 same arity but one label differs, 1/6 arity off by one, 1/6 arbitrary. \
+         non-trivial: single = has a node and an edge or interface entry (strictify: additionally some node is merged away; dagger: interfaces differ); compose = both operands non-trivial, arities equal and non-zero; tensor = both non-trivial; assign = left has a node and right mentions a node; constructors = non-empty type."
+            .into(),
+    );
+}
